@@ -12,7 +12,7 @@ LEVEL = 'exploration'
 BUDGET = {'quick': 200, 'thorough': 2400}
 CHUNK = 2
 RULE = ('Cases: an ancestor with 1..3 planted insertions/deletions of length 1..10 (< k), >= 4k apart and from the ends, every '
-        'non-trivial carrier set of 3..8 samples, k in {11,15,21,31}, threads 1..4 (a share with seeded jitter), samples in random '
+        'non-trivial carrier set of 3..8 samples (one case in seven: 10..13 samples of which one is a partial assembly that does not reach one of the indels and must be genotyped missing there), k in {11,15,21,31}, threads 1..4 (a share with seeded jitter), samples in random '
         'orientation, a quarter of the runs writing over larger output files of an earlier run under the same prefix, a third with dots in the output prefix, -m at its default, 0, 0.1 and 0.5; the generator rejects inputs in which a (k-1)-mer occurs at two different loci (or on both strands, or is self-complementary) over the union of the samples, the ancestor and the single-indel genomes.  '
         'Every record of <out>_indels.vcf is checked by substring tests on the sample sequences the generator wrote: '
         'before+REF+after (or its reverse complement; - = empty) occurs in exactly the samples genotyped 0, before+ALT+after in '
@@ -22,7 +22,7 @@ RULE = ('Cases: an ancestor with 1..3 planted insertions/deletions of length 1..
         'planted indels must be reported (inconclusive below 500 planted), over the whole run and over each of its three input populations: random indels, indels that repeat their flank (homopolymer / tandem-unit length changes), and indels whose junction lies inside a split k-mer with self-complementary arms (a quarter of the cases each for the last two).  Non-trivial: >= 1 planted indel; distinct = inputs.')
 ASSUMPTIONS = ['the sample sequences written by the generator are the ground truth',
                'recall is judged on the aggregate of a run with a minimum sample size of 500 planted indels']
-REQUIRED = {t: ['records_checked', 'planted', 'planted:plain', 'planted:flank', 'planted:palin', 'insertions', 'deletions', 'threads>1', 'multi_indel_inputs', 'headers_checked', 'runs_over_existing_output', 'dotted_output_prefix', 'runs_with_-m_0'] for t in ('quick', 'thorough')}
+REQUIRED = {t: ['records_checked', 'planted', 'planted:plain', 'planted:flank', 'planted:palin', 'insertions', 'deletions', 'threads>1', 'multi_indel_inputs', 'headers_checked', 'runs_over_existing_output', 'dotted_output_prefix', 'runs_with_-m_0', 'partial_assemblies'] for t in ('quick', 'thorough')}
 KS = [11, 15, 21, 31]
 
 
@@ -36,7 +36,7 @@ def plan(tier, seed, rng, scale):
     for i in range(n):
         descs.append({'k': KS[i % 4], 'seed': rng.getrandbits(32), 'threads': rng.choice([1, 1, 2, 3, 4]),
                       'jitter': rng.getrandbits(16) if rng.random() < 0.25 else None,
-                      'flank': True if i % 4 == 2 else ('palin' if i % 4 == 3 else False)})
+                      'flank': True if i % 4 == 2 else ('palin' if i % 4 == 3 else False), 'partial': i % 7 == 3})
     return descs
 
 
@@ -203,13 +203,31 @@ def run_case(desc, ctx):
     res = Result()
     k = desc['k']
     rng = random.Random(desc['seed'])
-    ns = rng.randint(3, 8)
+    ns = rng.randint(3, 8) if not desc.get('partial') else rng.randint(10, 13)
     g = gen(rng, k, ns, desc.get('flank', False))
     if g is None:
         res.count('generator_gave_up')
         return res
     anc, ss, indels, carriers, singles = g
-    pool = ['zeta', 'alpha', 'Mu', 'beta9', 'x10', 'x2', 'omega', 'delta', 'B_7', 'kappa']
+    if desc.get('partial'):
+        # ten or more samples, one or two of them partial assemblies that end before (or start after) one of the indels: such a
+        # sample carries neither allele there and must be genotyped '.', whatever it was genotyped in another record
+        ss = list(ss)
+        for t_ in rng.sample(range(ns), 1):
+            j_ = rng.randrange(len(indels))
+            a_ = indels[j_][0]
+            anchor = anc[a_ - 2 * k - k:a_ - 2 * k] if rng.random() < 0.5 else anc[a_ + 2 * k + 12:a_ + 3 * k + 12]
+            pos_ = ss[t_].find(anchor)
+            if pos_ < 0 or len(anchor) < k:
+                continue
+            if anchor == anc[a_ - 2 * k - k:a_ - 2 * k]:
+                cutseq = ss[t_][:pos_ + k]                  # ends before indel j_
+            else:
+                cutseq = ss[t_][pos_:]                     # starts after indel j_
+            if len(cutseq) >= 3 * k:
+                ss[t_] = cutseq
+                res.count('partial_assemblies')
+    pool = ['zeta', 'alpha', 'Mu', 'beta9', 'x10', 'x2', 'omega', 'delta', 'B_7', 'kappa', 'a1', 'Z', 'q-3', 'nu.2']
     r3 = random.Random(desc['seed'] ^ 0xabc)
     snames = r3.sample(pool, ns) if desc['seed'] % 2 else ['s%d' % i for i in range(ns)]
     files = [G.write_fa(ctx.path('%s.fa' % snames[i]), [s if rng.random() < 0.5 else M.rc(s)]) for i, s in enumerate(ss)]
@@ -307,10 +325,11 @@ def run_case(desc, ctx):
             if not located:
                 continue
             carrier_allele_is_alt = in0_r            # ancestor has REF -> carriers of the indel have ALT
-            car = {i for i, c in enumerate(carriers[j]) if c}
+            cov = {i for i in range(ns) if has(ss[i], rs) or has(ss[i], as_)}         # samples that reach this site at all
+            car = {i for i, c in enumerate(carriers[j]) if c} & cov
             g_car = {i for i, x in enumerate(gts) if x == ('1' if carrier_allele_is_alt else '0')}
             g_non = {i for i, x in enumerate(gts) if x == ('0' if carrier_allele_is_alt else '1')}
-            if g_car == car and g_non == set(range(ns)) - car:
+            if g_car == car and g_non == cov - car:
                 m = j
                 if abs(len(rs) - len(as_)) != ln:
                     # real alleles at the planted site with the planted carriers, written with longer flank-overlapping
